@@ -9,8 +9,23 @@ use serde_json::{json, Value as J};
 use crate::rw::{new_log, Sched, SchedReader};
 use crate::util::{catch, fmt_by_name};
 
-/// shape: "arr" | "map" | "alt" | "key" (MessagePack: collection in key position)
+/// shape: "arr" | "map" | "alt" | "key" (MessagePack: collection in key position) | "arr0" | "map0"
+/// (`depth` collections in all, the innermost one EMPTY: no scalar at the bottom)
 pub fn gen_deep(fmt: &str, shape: &str, depth: usize) -> Vec<u8> {
+    if let Some(base) = shape.strip_suffix('0') {
+        // depth - 1 wrappers around an empty collection
+        let inner = gen_deep(fmt, base, depth.saturating_sub(1));
+        let map = base == "map";
+        let (find, put): (&[u8], &[u8]) = match fmt {
+            "msgpack" => (&[0x01], if map { &[0x80] } else { &[0x90] }),
+            _ => (b"1", if map { b"{}" } else { b"[]" }),
+        };
+        let at = inner.iter().rposition(|b| *b == find[0]).expect("leaf");
+        let mut out = inner[..at].to_vec();
+        out.extend_from_slice(put);
+        out.extend_from_slice(&inner[at + 1..]);
+        return out;
+    }
     let is_map = |d: usize| match shape {
         "arr" => false,
         "map" | "key" => true,
